@@ -2550,3 +2550,510 @@ func runSnapshotEndMarker(c *Ctx, rule string) {
 		c.Fail(rule, "getSnapshot requires the end marker", get.Pos(), "getSnapshot can succeed without having seen the position value that ends a complete snapshot: a snapshot truncated at a frame boundary is accepted and the entries in the lost part silently disappear")
 	}
 }
+
+// ---- C06-M1: the merge operator reads the heap only at its root.
+//
+// hol is a binary min-heap: hol[0] is the smallest head, and nothing else is known about the
+// position of the second smallest (it is hol[1] or hol[2]).  Code that compares against a fixed
+// position other than the root (instead of popping the root and looking at the new root) can let a
+// whole batch overtake a smaller head.
+func runMergeHeapRootOnly(c *Ctx, rule string) {
+	p := c.P
+	c.Rule(rule, "merge.Op indexes its head-of-line heap only at position 0 (elsewhere only through container/heap's Less/Swap with variable indexes): the second smallest head is obtained by popping, never by reading hol[1]")
+	n := 0
+	for _, fn := range p.FuncsIn("runtime/sam/op/merge") {
+		if fn.Signature.Recv() == nil || namedOf(fn.Signature.Recv().Type()) != "runtime/sam/op/merge.Op" {
+			continue
+		}
+		for _, b := range fn.Blocks {
+			for _, in := range b.Instrs {
+				ia, ok := in.(*ssa.IndexAddr)
+				if !ok || !isFieldLoad(ia.X, "hol") {
+					continue
+				}
+				k, ok := ia.Index.(*ssa.Const)
+				if !ok {
+					continue
+				}
+				n++
+				construct := fnName(fn) + " reads hol[" + k.Value.String() + "]"
+				if k.Int64() == 0 {
+					c.OK(rule, construct, ia.Pos(), "the heap's root")
+				} else {
+					c.Fail(rule, construct, ia.Pos(), "a fixed position other than the root of the min-heap is read: with three or more inputs the second smallest head may sit in the other child, so a whole batch is emitted past a smaller value of another input and the merged output is not sorted")
+				}
+			}
+		}
+	}
+	if n < 2 {
+		c.Undecided(rule, "runtime/sam/op/merge.Op", "fewer than 2 constant-index reads of the heap found ("+sprint(n)+")")
+	}
+}
+
+// ---- C02-M1: lexical decisions of the formatter look through type names.
+func runMapKeyLexicalUnderlying(c *Ctx, rule string) {
+	p := c.P
+	c.Rule(rule, "the formatter decides how to separate a map key from its value on the key's underlying type: the comparison with the ip type in formatMap takes the result of TypeUnder (a named ip key is spelled exactly like a plain one, and an IPv6 key directly followed by `:` cannot be read back)")
+	fn := p.Func("(*zson.Formatter).formatMap")
+	if fn == nil {
+		c.Undecided(rule, "(*zson.Formatter).formatMap", "anchor does not resolve")
+		return
+	}
+	n := 0
+	for _, b := range fn.Blocks {
+		for _, in := range b.Instrs {
+			cmp, ok := in.(*ssa.BinOp)
+			if !ok || (cmp.Op != token.EQL && cmp.Op != token.NEQ) {
+				continue
+			}
+			isIP := func(v ssa.Value) bool {
+				return dependsOn(v, func(x ssa.Value) bool {
+					g, ok := x.(*ssa.Global)
+					return ok && g.Name() == "TypeIP"
+				})
+			}
+			var other ssa.Value
+			if isIP(cmp.X) {
+				other = cmp.Y
+			} else if isIP(cmp.Y) {
+				other = cmp.X
+			} else {
+				continue
+			}
+			n++
+			under := dependsOn(other, func(x ssa.Value) bool {
+				call, ok := x.(*ssa.Call)
+				return ok && calleeName(&call.Call) == "super.TypeUnder"
+			})
+			construct := "(*zson.Formatter).formatMap tests the key type for ip"
+			if under {
+				c.OK(rule, construct, cmp.Pos(), "on TypeUnder(keyType)")
+			} else {
+				c.Fail(rule, construct, cmp.Pos(), "the key type itself is compared with ip: a key of a named ip type is not recognised, the separating space after an IPv6 key is omitted, and an IPv6 key directly followed by a colon is lexed as one address — the text does not parse back (or parses to another value)")
+			}
+		}
+	}
+	if n == 0 {
+		c.Undecided(rule, "(*zson.Formatter).formatMap", "no test of the key type against ip found")
+	}
+}
+
+// ---- C12-U1: uniqueness of a new key is checked on every commit attempt.
+func runJournalKeyUniqueness(c *Ctx, rule string) {
+	p := c.P
+	c.Rule(rule, "journal.Store.Insert and Move refuse a key that already exists from inside the validator that commit re-runs after every reload (a lookup of the new entry's Key() in s.table leading to ErrKeyExists): a check made once up front is stale by the time a lost race is retried")
+	for _, name := range []string{"Insert", "Move"} {
+		fn := p.Func("(*lake/journal.Store)." + name)
+		if fn == nil {
+			c.Undecided(rule, "(*lake/journal.Store)."+name, "anchor does not resolve")
+			continue
+		}
+		// validators: closures handed (directly or through commitWithConstraint) to commit
+		ok := false
+		var fns []*ssa.Function
+		fns = append(fns, fn.AnonFuncs...)
+		for _, ci := range allCalls(fn) {
+			if callee := ci.Common().StaticCallee(); callee != nil && callee.Blocks != nil && p.PkgOf(callee) == "lake/journal" && callee.Name() != "commit" {
+				fns = append(fns, callee.AnonFuncs...)
+			}
+		}
+		for _, an := range fns {
+			returnsExists := false
+			for _, b := range an.Blocks {
+				if ret, isR := b.Instrs[len(b.Instrs)-1].(*ssa.Return); isR && len(ret.Results) == 1 {
+					if dependsOn(ret.Results[0], func(v ssa.Value) bool {
+						g, isG := v.(*ssa.Global)
+						return isG && g.Name() == "ErrKeyExists"
+					}) {
+						returnsExists = true
+					}
+				}
+			}
+			lookup := false
+			for _, b := range an.Blocks {
+				for _, in := range b.Instrs {
+					lk, isL := in.(*ssa.Lookup)
+					if !isL || !isFieldLoad(lk.X, "table") {
+						continue
+					}
+					if dependsOn(lk.Index, func(v ssa.Value) bool {
+						call, isC := v.(*ssa.Call)
+						return isC && call.Call.IsInvoke() && call.Call.Method.Name() == "Key"
+					}) {
+						lookup = true
+					}
+				}
+			}
+			if returnsExists && lookup {
+				ok = true
+			}
+		}
+		construct := "(*lake/journal.Store)." + name + " validator"
+		if ok {
+			c.OK(rule, construct, fn.Pos(), "looks the new key up in the table on every attempt")
+		} else {
+			c.Fail(rule, construct, fn.Pos(), "the validator that commit re-runs after each reload does not refuse an existing key: when this writer loses the race for a journal slot to a writer that created the same name, its retry commits on top of it and the other writer's acknowledged pool or branch vanishes from the name table")
+		}
+	}
+}
+
+// ---- C09-G4: only `by <field>` without renaming counts as the vectorizable shape.
+func runSingleFieldShape(c *Ctx, rule string) {
+	p := c.P
+	c.Rule(rule, "the planner treats a by-key as the vectorizable `<field>` shape only if its left and right sides are the same single field (the vector operator uses one name for the column it reads and the column it emits)")
+	fn := p.Func("compiler/optimizer.isSingleField")
+	if fn == nil {
+		c.Undecided(rule, "compiler/optimizer.isSingleField", "anchor does not resolve")
+		return
+	}
+	var eq *ssa.Call
+	for _, ci := range allCalls(fn) {
+		nm := calleeName(ci.Common())
+		if nm == "(pkg/field.Path).Equal" || strings.HasSuffix(nm, "slices.Equal") {
+			eq, _ = ci.(*ssa.Call)
+		}
+	}
+	good := eq != nil
+	if good {
+		for _, b := range fn.Blocks {
+			ret, ok := b.Instrs[len(b.Instrs)-1].(*ssa.Return)
+			if !ok || len(ret.Results) != 2 {
+				continue
+			}
+			if k, ok := returnOperand(ret, 1).(*ssa.Const); ok && k.Value != nil && k.Value.String() == "false" {
+				continue
+			}
+			if !trueEdgeDominatesOrSelf(eq, b) {
+				good = false
+			}
+		}
+	}
+	if good {
+		c.OK(rule, "compiler/optimizer.isSingleField", fn.Pos(), "true only where LHS equals RHS")
+	} else {
+		c.Fail(rule, "compiler/optimizer.isSingleField", fn.Pos(), "a by-key whose output name differs from the field it reads is accepted as the vectorizable shape: the vector count-by emits the source field's name, so `count() by t:=s` yields a column s (or a missing-key error row after the combine) once the pool has vectors")
+	}
+}
+
+// ---- C20-M3: merging a type with itself gives that type.
+//
+// merge falls through to "union of the two" when no structural case applies.  For equal operands
+// that produces the invalid union (T,T); the recursive calls for container elements reach it
+// whenever an array and a set (or two maps) share an element type.
+func runMergeIdempotent(c *Ctx, rule string) {
+	p := c.P
+	c.Rule(rule, "agg.merge returns its operand when both operands are the same type: an identity test on the two parameters precedes every construction of a union (no union with a repeated member can be built)")
+	fn := p.Func("runtime/sam/expr/agg.merge")
+	if fn == nil {
+		c.Undecided(rule, "runtime/sam/expr/agg.merge", "anchor does not resolve")
+		return
+	}
+	a, b := fn.Params[1], fn.Params[2]
+	var test *ssa.BinOp
+	for _, bl := range fn.Blocks {
+		for _, in := range bl.Instrs {
+			cmp, ok := in.(*ssa.BinOp)
+			if !ok || (cmp.Op != token.EQL && cmp.Op != token.NEQ) {
+				continue
+			}
+			if (cmp.X == ssa.Value(a) && cmp.Y == ssa.Value(b)) || (cmp.X == ssa.Value(b) && cmp.Y == ssa.Value(a)) {
+				test = cmp
+			}
+		}
+	}
+	n := 0
+	for _, ci := range allCalls(fn) {
+		if calleeName(ci.Common()) != "(*super.Context).LookupTypeUnion" {
+			continue
+		}
+		// only the two-operand fallback: its argument is a fresh slice holding the two parameters
+		if !dependsOn(ci.Common().Args[1], func(v ssa.Value) bool { return v == ssa.Value(a) }) || !dependsOn(ci.Common().Args[1], func(v ssa.Value) bool { return v == ssa.Value(b) }) {
+			continue
+		}
+		n++
+		blk := ci.(ssa.Instruction).Block()
+		ok := false
+		if test != nil {
+			if test.Op == token.EQL {
+				ok = falseEdgeDominatesOrSelf(test, blk)
+			} else {
+				ok = trueEdgeDominatesOrSelf(test, blk)
+			}
+		}
+		construct := "runtime/sam/expr/agg.merge builds the union of its two operands"
+		if ok {
+			c.OK(rule, construct, ci.Pos(), "only where the operands differ")
+		} else {
+			c.Fail(rule, construct, ci.Pos(), "the two-member union is built without first testing that the operands differ: an array and a set (or two maps) with the same element type fuse to a container of the invalid union (T,T), and every value is re-tagged into it")
+		}
+	}
+	if n == 0 {
+		c.Undecided(rule, "runtime/sam/expr/agg.merge", "the two-operand union fallback was not found")
+	}
+}
+
+// ---- C20-R2: the shaper's per-input-type cache is keyed by the type, not by its underlying ID.
+func runShaperCacheKey(c *Ctx, rule string) {
+	p := c.P
+	c.Rule(rule, "ConstShaper caches one shaper per input type: the key of the shapers map identifies the type itself (the type, or zed.TypeID of it) — Type.ID() of a named type is the ID of its underlying type, so with that key a named type and its underlying type share a shaper and one of them is tagged as the other")
+	fn := p.Func("(*runtime/sam/expr.ConstShaper).Eval")
+	if fn == nil {
+		c.Undecided(rule, "(*runtime/sam/expr.ConstShaper).Eval", "anchor does not resolve")
+		return
+	}
+	n := 0
+	check := func(key ssa.Value, pos token.Pos, what string) {
+		n++
+		viaID := dependsOn(key, func(v ssa.Value) bool {
+			call, ok := v.(*ssa.Call)
+			return ok && call.Call.IsInvoke() && call.Call.Method.Name() == "ID"
+		})
+		construct := "(*runtime/sam/expr.ConstShaper).Eval " + what + " the shaper cache"
+		if viaID {
+			c.Fail(rule, construct, pos, "the cache key is Type.ID(), which for a named type is the ID of the underlying type: after a value of `port=int64` was shaped, a plain int64 gets the same shaper and comes out tagged as port (fuse changes the type of a value)")
+		} else {
+			c.OK(rule, construct, pos, "keyed by the type itself")
+		}
+	}
+	for _, b := range fn.Blocks {
+		for _, in := range b.Instrs {
+			switch x := in.(type) {
+			case *ssa.Lookup:
+				if isFieldLoad(x.X, "shapers") {
+					check(x.Index, x.Pos(), "reads")
+				}
+			case *ssa.MapUpdate:
+				if isFieldLoad(x.Map, "shapers") {
+					check(x.Key, x.Pos(), "fills")
+				}
+			}
+		}
+	}
+	if n < 2 {
+		c.Undecided(rule, "(*runtime/sam/expr.ConstShaper).Eval", "shaper cache accesses not found")
+	}
+}
+
+// ---- C14-M1 / C16-B3: the first key of a data object is captured by position, not by value.
+func runFirstKeyByPosition(c *Ctx, rule string) {
+	p := c.P
+	c.Rule(rule, "data.Writer records an object's first key under a guard that does not look at key values: the condition under which object.Min is set in writeIndex is a flag of the writer, not a test of Min or of the key (a null or missing key is a legitimate first key — in a descending pool it is the largest — and would be overwritten by the next one)")
+	fn := p.Func("(*lake/data.Writer).writeIndex")
+	if fn == nil {
+		c.Undecided(rule, "(*lake/data.Writer).writeIndex", "anchor does not resolve")
+		return
+	}
+	n := 0
+	for _, ci := range allCalls(fn) {
+		if calleeName(ci.Common()) != "(*super.Value).CopyFrom" {
+			continue
+		}
+		recv := ci.Common().Args[0]
+		fa, ok := recv.(*ssa.FieldAddr)
+		if !ok || namedOf(fa.X.Type()) != "lake/data.Object" || fieldName(fa.X.Type(), fa.Field) != "Min" {
+			continue
+		}
+		n++
+		blk := ci.(ssa.Instruction).Block()
+		valueDep := false
+		flagDep := false
+		for _, gb := range fn.Blocks {
+			iff, ok := gb.Instrs[len(gb.Instrs)-1].(*ssa.If)
+			if !ok || !gb.Dominates(blk) || gb == blk {
+				continue
+			}
+			if dependsOn(iff.Cond, func(v ssa.Value) bool {
+				f, ok := v.(*ssa.FieldAddr)
+				if ok && namedOf(f.X.Type()) == "lake/data.Object" {
+					return true
+				}
+				if call, ok := v.(*ssa.Call); ok {
+					nm := calleeName(&call.Call)
+					return strings.HasPrefix(nm, "(*super.Value).") || strings.HasPrefix(nm, "(super.Value).")
+				}
+				_, isParam := v.(*ssa.Parameter)
+				return isParam && v.Name() == "key"
+			}) {
+				valueDep = true
+			}
+			if dependsOn(iff.Cond, func(v ssa.Value) bool {
+				f, ok := v.(*ssa.FieldAddr)
+				if !ok || namedOf(f.X.Type()) != "lake/data.Writer" {
+					return false
+				}
+				ft := f.Type().(*types.Pointer).Elem()
+				b, isB := ft.Underlying().(*types.Basic)
+				return isB && b.Kind() == types.Bool
+			}) {
+				flagDep = true
+			}
+		}
+		construct := "(*lake/data.Writer).writeIndex captures the first key"
+		switch {
+		case valueDep:
+			c.Fail(rule, construct, ci.Pos(), "whether the first key is recorded depends on a key value (a test of object.Min or of the key): a null first key — legitimate, and the largest key of a descending pool — leaves the test true, so the next key overwrites the bound and the object's range no longer covers the null/missing-key values it holds (listing order, partitioning, pruning and compaction all trust that range)")
+		case flagDep:
+			c.OK(rule, construct, ci.Pos(), "guarded by a flag of the writer")
+		default:
+			c.Undecided(rule, construct, "the guard of the first-key capture was not recognised")
+		}
+	}
+	if n == 0 {
+		c.Undecided(rule, "(*lake/data.Writer).writeIndex", "no capture of object.Min found")
+	}
+}
+
+// ---- C15-V1: reverting vector actions is decided on the vector's own presence in the tip.
+func runRevertVectorGuards(c *Ctx, rule string) {
+	p := c.P
+	c.Rule(rule, "if Patch.Revert emits vector actions, a delete-vector is emitted only where the tip has that vector and an add-vector only where it does not (HasVector on the tip); commits are written without being replayed, so an action that contradicts the tip makes every later snapshot of the branch fail")
+	fn := p.Func("(*lake/commits.Patch).Revert")
+	if fn == nil {
+		c.Undecided(rule, "(*lake/commits.Patch).Revert", "anchor does not resolve")
+		return
+	}
+	n := 0
+	for _, ci := range allCalls(fn) {
+		nm := calleeName(ci.Common())
+		var want int // succ index of the HasVector test that must dominate: 0 = true edge
+		switch nm {
+		case "(*lake/commits.Object).appendDeleteVector":
+			want = 0
+		case "(*lake/commits.Object).appendAddVector":
+			want = 1
+		default:
+			continue
+		}
+		n++
+		blk := ci.(ssa.Instruction).Block()
+		ok := false
+		for _, hv := range allCalls(fn) {
+			cc := hv.Common()
+			isHV := (cc.IsInvoke() && cc.Method.Name() == "HasVector") || strings.HasSuffix(calleeName(cc), ").HasVector")
+			v, isV := hv.(ssa.Value)
+			if !isHV || !isV {
+				continue
+			}
+			if want == 0 && trueEdgeDominatesOrSelf(v, blk) {
+				ok = true
+			}
+			if want == 1 && falseEdgeDominatesOrSelf(v, blk) {
+				ok = true
+			}
+			// negated form
+			for _, r := range *v.Referrers() {
+				if u, isU := r.(*ssa.UnOp); isU && u.Op == token.NOT {
+					if want == 0 && falseEdgeDominatesOrSelf(u, blk) {
+						ok = true
+					}
+					if want == 1 && trueEdgeDominatesOrSelf(u, blk) {
+						ok = true
+					}
+				}
+			}
+		}
+		construct := "(*lake/commits.Patch).Revert emits " + strings.TrimPrefix(nm, "(*lake/commits.Object).")
+		if ok {
+			c.OK(rule, construct, ci.Pos(), "guarded by HasVector on the tip")
+		} else {
+			c.Fail(rule, construct, ci.Pos(), "the vector action is not conditioned on whether the tip has that vector: after the vector was already deleted (or re-added) on the branch, the revert commit contradicts the tip, and since a commit is written without replaying it the branch can no longer be read (`write conflict` on every snapshot)")
+		}
+	}
+	c.extra("c15_revert_vector_actions", n)
+}
+
+// ---- C20-A1: the fuse aggregate sees the type of every value.
+func runFuseConsumesEveryType(c *Ctx, rule string) {
+	p := c.P
+	c.Rule(rule, "the fuse aggregate mixes in the type of every value it is given, null or not: every path through fuse.Consume reaches the schema's Mixin (the fuse operator does the same, and the property requires both to report the same type)")
+	fn := p.Func("(*runtime/sam/expr/agg.fuse).Consume")
+	if fn == nil {
+		c.Undecided(rule, "(*runtime/sam/expr/agg.fuse).Consume", "anchor does not resolve")
+		return
+	}
+	isMix := func(in ssa.Instruction) bool {
+		ci, ok := in.(ssa.CallInstruction)
+		if !ok {
+			return false
+		}
+		nm := calleeName(ci.Common())
+		return nm == "(*runtime/sam/expr/agg.Schema).Mixin" || strings.HasSuffix(nm, ").Mixin")
+	}
+	// Consume may record types in a set and mix them in later (Result); accept a map update of a types field too
+	isRecord := func(in ssa.Instruction) bool {
+		if isMix(in) {
+			return true
+		}
+		if mu, ok := in.(*ssa.MapUpdate); ok && isFieldLoad(mu.Map, "shapes") {
+			return true
+		}
+		// the type is already recorded: the membership test itself
+		lk, ok := in.(*ssa.Lookup)
+		return ok && isFieldLoad(lk.X, "shapes")
+	}
+	isRet := func(in ssa.Instruction) bool { _, ok := in.(*ssa.Return); return ok }
+	if hit := reachAvoiding(fn, nil, isRecord, isRet); hit != nil {
+		pos := hit.Pos()
+		if !pos.IsValid() {
+			pos = fn.Pos()
+		}
+		c.Fail(rule, "(*runtime/sam/expr/agg.fuse).Consume records the value's type", pos, "a path through Consume returns without recording the value's type (e.g. for null values): a typed null whose type carries fields seen nowhere else is part of the operator's fused type but not of what fuse() reports, so the two disagree")
+	} else {
+		c.OK(rule, "(*runtime/sam/expr/agg.fuse).Consume records the value's type", fn.Pos(), "on every path")
+	}
+}
+
+// ---- C01-C1: a control frame never ends a scan.
+func runControlDoesNotEndScan(c *Ctx, rule string) {
+	p := c.P
+	c.Rule(rule, "in both ZNG scanners an error value that may be a control message does not end the scan: a store that marks the scanner finished (eof = true) is taken only for done, or after the type assertion to *zbuf.Control failed (control frames are delivered through the error result, and values follow them)")
+	n := 0
+	for _, name := range []string{"(*zio/zngio.scanner).Pull", "(*zio/zngio.scannerSync).Pull"} {
+		fn := p.Func(name)
+		if fn == nil {
+			c.Undecided(rule, name, "anchor does not resolve")
+			continue
+		}
+		done := fn.Params[1]
+		for _, b := range fn.Blocks {
+			for _, in := range b.Instrs {
+				st, ok := in.(*ssa.Store)
+				if !ok {
+					continue
+				}
+				fa, ok := st.Addr.(*ssa.FieldAddr)
+				if !ok || fieldName(fa.X.Type(), fa.Field) != "eof" {
+					continue
+				}
+				if k, ok := st.Val.(*ssa.Const); !ok || k.Value == nil || k.Value.String() != "true" {
+					continue
+				}
+				n++
+				okDone := trueEdgeDominatesOrSelf(done, b)
+				okCtl := false
+				for _, ob := range fn.Blocks {
+					for _, oi := range ob.Instrs {
+						ta, isTA := oi.(*ssa.TypeAssert)
+						if !isTA || !ta.CommaOk || short(ta.AssertedType.String()) != "*zbuf.Control" {
+							continue
+						}
+						for _, r := range *ta.Referrers() {
+							if ex, isEx := r.(*ssa.Extract); isEx && ex.Index == 1 && falseEdgeDominatesOrSelf(ex, b) {
+								okCtl = true
+							}
+						}
+					}
+				}
+				construct := name + " marks the scan finished #" + sprint(n)
+				if okDone || okCtl {
+					c.OK(rule, construct, st.Pos(), "only for done / after the error was found not to be a control message")
+				} else {
+					c.Fail(rule, construct, st.Pos(), "the scanner is marked finished for any error value, including a control message: the control frame is delivered once and then the reader reports a clean end of input, so every value after the first control frame is silently dropped (single-threaded readers)")
+				}
+			}
+		}
+	}
+	if n < 2 {
+		c.Undecided(rule, "ZNG scanners", "fewer than 2 eof stores found ("+sprint(n)+")")
+	}
+}
